@@ -18,6 +18,10 @@ NA = {
 }
 
 CHECKS = {
+ "C01": dict(level="exploration", ref="DESIGN.md section 4 (C01)",
+   text="The simulator owns the collection schedule: every generated heap-shape program (retention chains root -> edges -> target in which the chain is the only path to the target, over catalogues of 19 edge kinds, 17 target kinds and 18 root kinds incl. suspended/calling/dropped fibers, open captured variables, module attributes, values in flight through finally/unwinding; plus 39 operations that make the interpreter hold fresh objects mid-operation) runs under never-collect (reference), collect-at-every-allocation and a PRNG collection tape, with reclaimed objects quarantined so that every dereference of a prematurely reclaimed object and every access through an open captured variable into a reclaimed fiber stack is recorded. Oracle: zero use-after-reclaim events, identical histories across schedules, no panic. The schedule dimension is closed by dominance (collect-always sees what any schedule can see); heap shapes are sampled: evidence, not proof.",
+   note="Trusted: the verif_hooks quarantine and monitor (add-only hooks in memory.rs/object.rs); a premature reclaim is only visible if the program touches the object again (every gadget reads its target back); real free() is not exercised.",
+   technique="deterministic simulation: simulator-owned GC schedule (never/always/tape) with quarantine, use-after-reclaim monitor on every managed dereference, differential history comparison against the never-collect run"),
  "C12": dict(level="exploration", ref="DESIGN.md section 4 (C12)",
    text="Seeded search over operation histories (literal construction incl. duplicate and unhashable keys, insert, remove, get, has_key, clear, len, keys, values, items) on 1-3 maps whose keys are built at run time in different ways so that equal keys are distinct objects and are referenced only by the map, crossed with the collection schedule (every allocation, and a PRNG tape) under quarantine so that a key or value the map fails to keep alive is an observable use-after-reclaim; also the plain release build. Every operation result is compared with an association-list model keyed by the language's ==, enumerations as multisets. A clean batch is evidence, not proof.",
    note="Trusted: the abstract map model and its == ; the verif_hooks quarantine/monitor; the runner's value encoding.",
